@@ -253,7 +253,7 @@ Eval(t, env) ==
               ELSE IF ~AllOk(as.outs) THEN R(AnyOut, as.log, FALSE)
               ELSE R(CallBuiltin(t.f, FALSE, VNull, Vals(as.outs)), as.log, as.lk)
            ELSE IF t.f \in MacroNames THEN Pure(AnyOut)
-           ELSE LET as == EvalArgs(t.args, 1, env, NoArgs) IN R(AnyOut, as.log, FALSE)   \* not callable: arguments may or may not run
+           ELSE LET as == EvalArgs(t.args, 1, env, NoArgs) IN R(Err("either"), as.log, FALSE)   \* not callable: a failure (C12); its arguments may or may not run
       [] t.k = "mcall" ->
            LET rc == Eval(t.r, env) IN
            IF rc.o.o = "err" THEN R(rc.o, rc.log, rc.lk)        \* a failed receiver is that failure
